@@ -66,7 +66,7 @@ CHECKS = {
                 text="Run-time clauses only: the stand-in event store logs every retrieval (API, container type, bank) of the compiled "
                      "generated job and the log is checked against the query's e.<Collection>(bank) occurrences (idiom, type, bank, "
                      "miniAOD tokens created once by consumes<T>(InputTag(bank))); then every retrieval of sampled events is failed in "
-                     "turn: the delivery must fail before any row is filled, without a signal, and a fresh instance must reproduce "
+                     "turn: the delivery must fail without a signal, rows already written must be a prefix of the event's rows, and a fresh instance must reproduce "
                      "the event. A third of the jobs are translated after a seeded history (other backend, same executor, replaced "
                      "collection). Header/link-library requests and metadata validation are NOT decided.",
                 note="Scoped claim (see text). Trusted: stand-in event store semantics for a failed retrieval (ATLAS: FAILURE status, "
